@@ -230,6 +230,26 @@ func gen(tier string, r *lib.Rand, emit func(string)) {
 		}
 	}
 
+	// (d) long chains in which one element is re-used by hundreds of later positions (usage counts
+	// far beyond any small machine word): a short chain prefix followed by an arithmetic progression
+	// with one of its elements as the stride. Lengths straddle 2^8 and (thorough) go past 2^10.
+	steps := []int{250, 254, 255, 256, 257, 300, 515}
+	if tier == "thorough" {
+		steps = append(steps, 700, 1030, 2050)
+	}
+	for _, pre := range [][]int64{{1, 2, 3}, {1, 2, 3, 5}, {1, 2}, {1, 2, 4, 5}, {1, 2, 3, 6, 7}} {
+		for _, si := range []int{len(pre) - 1, len(pre) - 2} {
+			for _, n := range steps {
+				c := ints(pre)
+				stride := c[si]
+				for k := 0; k < n; k++ {
+					c = append(c, new(big.Int).Add(c[len(c)-1], stride))
+				}
+				e(c)
+			}
+		}
+	}
+
 	// (b') chains emitted by the search algorithms, taken before the optimisation wrapper
 	as := ensemble.Ensemble()
 	for _, nb := range bits {
